@@ -172,6 +172,150 @@ fn check(case: &Case, rep: &mut Report, states: &mut std::collections::HashSet<(
     }
 }
 
+/// (4) mixed consumers: the replies a peer sends are taken off one connection by a random sequence of
+/// `receive_reply`, `call_method` and chains (whose reply stream is polled with `next()`), every one of
+/// which may be abandoned at any suspension point — after which the *next* operation, of whatever kind,
+/// carries on. Whatever was abandoned, the replies obtained, in order, are the replies sent.
+fn mixed_case(seed: u64) -> (Result<(), (String, String)>, usize, usize) {
+    use crate::c06::{call_for, canon_item, Kind as K6, Rep, Tagged, EC, MC};
+    use futures_util::StreamExt;
+    let mut rng = Rng::new(seed);
+    let n = rng.range(2, 12);
+    let reps: Vec<Rep> = (0..n)
+        .map(|i| Rep { tag: 500 + i as u32, is_error: rng.chance(1, 6), continues: *rng.pick(&[None, None, Some(false)]), pad: if rng.chance(1, 5) { rng.range(200, 600) } else { rng.below(7) } })
+        .collect();
+    let stream: Vec<u8> = reps.iter().flat_map(|r| r.bytes()).collect();
+    let cuts = random_cuts(&mut rng, stream.len(), 10);
+    let wire = new_wire(0);
+    {
+        let mut w = wire.borrow_mut();
+        for c in chunks_at(&stream, &cuts) {
+            for _ in 0..rng.below(3) {
+                w.push(Rx::Pending);
+            }
+            w.push(Rx::Bytes(c));
+        }
+        w.push(Rx::Eof);
+    }
+    let expected: Vec<String> = reps.iter().map(|r| r.canon()).collect();
+    let mut got: Vec<String> = Vec::new();
+    let mut conn = Connection::new(VSocket(wire.clone()));
+    let mut ops_log: Vec<String> = Vec::new();
+    let (mut suspensions, mut cancels) = (0usize, 0usize);
+    let p_cancel = *rng.pick(&[2usize, 3, 5]);
+    let mut guard = 0;
+    while got.len() < n {
+        guard += 1;
+        if guard > 400 {
+            return (Err(("C07/mixed-operations:no-progress".into(), format!("400 operations, {} of {n} replies; ops {:?}", got.len(), ops_log))), suspensions, cancels);
+        }
+        match rng.below(4) {
+            0 | 1 => {
+                // plain receive_reply, possibly abandoned
+                let fut = conn.receive_reply::<Tagged, EC>();
+                let mut fut = core::pin::pin!(fut);
+                loop {
+                    match vnet::poll_once(fut.as_mut()) {
+                        core::task::Poll::Ready(r) => {
+                            ops_log.push("receive_reply".into());
+                            got.push(canon_item(&r));
+                            break;
+                        }
+                        core::task::Poll::Pending => {
+                            suspensions += 1;
+                            if rng.chance(1, p_cancel) {
+                                cancels += 1;
+                                ops_log.push("receive_reply(abandoned)".into());
+                                break;
+                            }
+                        }
+                    }
+                }
+            }
+            2 => {
+                let call = call_for(K6::Plain, 7);
+                let fut = conn.call_method::<MC, Tagged, EC>(&call);
+                let mut fut = core::pin::pin!(fut);
+                loop {
+                    match vnet::poll_once(fut.as_mut()) {
+                        core::task::Poll::Ready(r) => {
+                            ops_log.push("call_method".into());
+                            got.push(canon_item(&r));
+                            break;
+                        }
+                        core::task::Poll::Pending => {
+                            suspensions += 1;
+                            if rng.chance(1, p_cancel) {
+                                cancels += 1;
+                                ops_log.push("call_method(abandoned)".into());
+                                break;
+                            }
+                        }
+                    }
+                }
+            }
+            _ => {
+                // a chain of k plain calls; its stream is polled item by item and may be given up at any point
+                let k = rng.range(1, 3).min(n - got.len());
+                let mut chain = conn.chain_call::<MC, Tagged, EC>(&call_for(K6::Plain, 0)).expect("enqueue");
+                for i in 1..k {
+                    chain = chain.append(&call_for(K6::Plain, i as u32)).expect("enqueue");
+                }
+                let Some(Ok(st)) = vnet::block_on(chain.send(), 4) else {
+                    return (Err(("inconclusive".into(), "virtual write did not complete".into())), suspensions, cancels);
+                };
+                let mut st = core::pin::pin!(st);
+                let mut yielded = 0;
+                'chain: while yielded < k {
+                    let fut = st.next();
+                    let mut fut = core::pin::pin!(fut);
+                    loop {
+                        match vnet::poll_once(fut.as_mut()) {
+                            core::task::Poll::Ready(Some(r)) => {
+                                got.push(canon_item(&r));
+                                yielded += 1;
+                                break;
+                            }
+                            core::task::Poll::Ready(None) => break 'chain,
+                            core::task::Poll::Pending => {
+                                suspensions += 1;
+                                if rng.chance(1, p_cancel) {
+                                    cancels += 1;
+                                    if rng.chance(1, 2) {
+                                        // give the whole stream up; a later operation takes the replies
+                                        ops_log.push(format!("chain({k}) given up after {yielded}"));
+                                        break 'chain;
+                                    }
+                                    // only this `next()` future is dropped
+                                    break;
+                                }
+                            }
+                        }
+                    }
+                }
+                ops_log.push(format!("chain({k}) yielded {yielded}"));
+            }
+        }
+        let m = got.len();
+        if got[..] != expected[..m.min(expected.len())] {
+            return (
+                Err((
+                    "C07/mixed-operations:replies-obtained-differ-from-replies-sent".into(),
+                    format!("after operations {ops_log:?}: obtained {got:?}, the peer sent {expected:?}; cuts {cuts:?}; {cancels} abandonments"),
+                )),
+                suspensions,
+                cancels,
+            );
+        }
+    }
+    // everything consumed: end of stream
+    let fin = vnet::block_on(conn.receive_reply::<Tagged, EC>(), 8);
+    if !matches!(fin, Some(Err(zlink_core::Error::UnexpectedEof))) {
+        return (Err(("C07/mixed-operations:no-end-of-stream-after-the-last-reply".into(), format!("{:?}; ops {ops_log:?}", fin.map(|r| canon_item(&r))))), suspensions, cancels);
+    }
+    (Ok(()), suspensions, cancels)
+}
+
 fn random_cuts(rng: &mut Rng, len: usize, max: usize) -> Vec<usize> {
     if len < 2 {
         return vec![];
@@ -202,7 +346,7 @@ fn small_stream(rng: &mut Rng, max_frames: usize, big: bool) -> Vec<Frame> {
 pub fn run(cfg: &Cfg) -> Report {
     let mut rep = Report::new("C07", "c07");
     let mut states = std::collections::HashSet::new();
-    if let Some(r) = &cfg.replay {
+    if let Some(r) = cfg.replay.as_ref().filter(|r| r.get("mixed_seed").is_none()) {
         let case = Case {
             frames: frames_from_json(&r["frames"]),
             cuts: r["cuts"].as_array().unwrap().iter().map(|c| c.as_u64().unwrap() as usize).collect(),
@@ -214,6 +358,14 @@ pub fn run(cfg: &Cfg) -> Report {
         check(&case, &mut rep, &mut states);
         let x = execute(&case, &mut states);
         rep.notes.push(format!("replay: actual={:?} expected={:?}", x.actual, x.expected));
+        return rep;
+    }
+    if let Some(seed) = cfg.replay.as_ref().and_then(|r| r["mixed_seed"].as_u64()) {
+        let (r, _, _) = mixed_case(seed);
+        rep.eval(seed);
+        if let Err((sig, d)) = r {
+            rep.violation(&sig, d, json!({"monitor": "c07", "mixed_seed": seed}));
+        }
         return rep;
     }
     let miri = cfg.layer == "miri";
@@ -299,6 +451,33 @@ pub fn run(cfg: &Cfg) -> Report {
         check(&mk(cancel, true), &mut rep, &mut states);
         rep.count("long_burst_streams");
         rep.max("max_frames_in_one_burst", n as u64);
+    }
+    // (4) mixed consumers
+    let n_mixed = if miri { cfg.n(8, 64) } else { cfg.n(60_000, 3_000_000) };
+    for i in 0..n_mixed {
+        let seed = cfg.seed.wrapping_mul(0x9E37_79B9).wrapping_add((cfg.shard as u64) << 40).wrapping_add(i) ^ 0x07;
+        let res = vnet::catch(|| mixed_case(seed));
+        rep.count("mixed_consumer_cases");
+        match res {
+            Err(p) => {
+                rep.eval(seed);
+                rep.violation("C07/panic-in-receive", format!("mixed operations: panic: {p}"), json!({"monitor": "c07", "mixed_seed": seed}));
+            }
+            Ok((r, susp, canc)) => {
+                if canc > 0 {
+                    rep.eval(seed);
+                } else {
+                    rep.evaluations += 1;
+                }
+                rep.add("suspension_points", susp as u64);
+                rep.add("cancellations", canc as u64);
+                match r {
+                    Ok(()) => {}
+                    Err((sig, d)) if sig == "inconclusive" => rep.inconclusive.push(d),
+                    Err((sig, d)) => rep.violation(&sig, d, json!({"monitor": "c07", "mixed_seed": seed})),
+                }
+            }
+        }
     }
     rep.add("distinct_hook_states(read_pos,msg_pos,buf_len)", states.len() as u64);
     rep
